@@ -97,9 +97,24 @@ fn exec_step(engine: &mut Engine, step: &Step) -> Result<Vec<String>, (String, S
             // bit 62 of the step count selects the hook's late mode: the request is raised after the
             // interrupt check of that step, so the step's instruction runs with the request pending
             let late = *after_steps & (1 << 62) != 0;
-            let after = *after_steps & !(1u64 << 62);
+            // bit 61: the request is made by another thread after a delay (low bits, in microseconds) instead of
+            // at a script step - the only way to meet the windows between the requesting thread's own stores
+            let asynchronous = *after_steps & (1 << 61) != 0;
+            let after = *after_steps & !(3u64 << 61);
             verif::INTERRUPT_AFTER_CHECK.store(late, Ordering::SeqCst);
-            verif::arm_interrupt(base + after, Box::new(move || ctl2.interrupt()));
+            let requester = if asynchronous {
+                let ctl3 = ctl.clone();
+                verif::arm_interrupt(u64::MAX / 2, Box::new(move || ctl2.interrupt()));
+                Some(std::thread::spawn(move || {
+                    std::thread::sleep(std::time::Duration::from_micros(after));
+                    // (the request is complete when interrupt() returns: the delay point inside it may take ms)
+                    ctl3.interrupt();
+                    verif::INTERRUPT_FIRED_AT.store(verif::STEPS.load(Ordering::SeqCst).max(1), Ordering::SeqCst);
+                }))
+            } else {
+                verif::arm_interrupt(base + after, Box::new(move || ctl2.interrupt()));
+                None
+            };
             // Fallback for code that runs without passing the counted dispatch point: a timer
             // delivers the interrupt if the armed step count was not reached in time.
             let done = std::sync::Arc::new(std::sync::atomic::AtomicBool::new(false));
@@ -117,6 +132,9 @@ fn exec_step(engine: &mut Engine, step: &Step) -> Result<Vec<String>, (String, S
             let r = run_eval(engine, src);
             done.store(true, Ordering::SeqCst);
             let _ = timer.join();
+            if let Some(t) = requester {
+                let _ = t.join();
+            }
             verif::disarm_interrupt();
             ctl.resume();
             r
